@@ -22,12 +22,15 @@ BUDGET = {"quick": 480, "thorough": 900}
 ME = 0o2
 
 
-def mk_message(sender, fid, nfrag, typ, tag):
+MC = 0o100  # the multicast address: a node also reassembles multicasts of its level
+
+
+def mk_message(sender, fid, nfrag, typ, tag, to=ME):
     n = 24 * (nfrag - 1) + 1 + (tag * 7) % 23
-    body = bytes(((tag * 31 + i * 5 + sender) & 0xFF) for i in range(n))
-    frames = net_ref.fragment(sender, ME, fid, typ, body)
+    body = bytes(((tag * 31 + i * 5 + sender + (to != ME)) & 0xFF) for i in range(n))
+    frames = net_ref.fragment(sender, to, fid, typ, body)
     assert len(frames) == nfrag
-    return {"from": sender, "id": fid, "type": typ, "msg": body, "frames": frames}
+    return {"from": sender, "id": fid, "type": typ, "msg": body, "frames": frames, "to": to}
 
 
 def patterns_single(nfrag):
@@ -113,6 +116,17 @@ def gen_cases(ctx):
                     order += [[0, i] for i in range(tail_from, nfrag)]
                     yield {"msgs": msgs, "order": order, "deq": deq,
                            "path": "radio" if (nfrag + k + tail_from) % 3 == 0 else "direct"}
+    # one header object used for a direct message and a multicast: same origin, same frame id,
+    # another destination - every loss pattern of the first stream's tail and the second stream's
+    # head, both orders
+    for na, nb in ((2, 2), (3, 2), (2, 3), (3, 3), (4, 3)):
+        for first_to, second_to in ((ME, MC), (MC, ME)):
+            for keep_a in range(1, na + 1):         # the first stream loses its tail after keep_a fragments
+                for skip_b in range(0, nb):         # the second stream loses its first skip_b fragments
+                    order = [[0, i] for i in range(keep_a)] + [[1, i] for i in range(skip_b, nb)]
+                    for deq in ([], [len(order)]):
+                        yield {"msgs": [[0o3, 10, na, 70, first_to], [0o3, 10, nb, 71, second_to]],
+                               "order": order, "deq": deq, "path": "radio" if (na + nb + keep_a) % 3 == 0 else "direct"}
     # stray fragments / restarts / random
     nrand = 8000 if ctx.tier == "quick" else 400000
     for i in range(nrand):
@@ -123,12 +137,14 @@ def gen_cases(ctx):
                          rng.choice([10, 10, 11, 12]),
                          rng.randrange(2, 8 if ctx.tier == "thorough" else 6),
                          rng.randrange(1, 9) if rng.random() < 0.25 else rng.randrange(1, 128)])
-        # one sender never re-uses a frame id for another message
+        # one sender re-uses a frame id only with another destination (a kept header object)
         seen_pairs = set()
         for mm in msgs:
-            while (mm[0], mm[1]) in seen_pairs:
+            if rng.random() < 0.2:
+                mm.append(MC)
+            while (mm[0], mm[1], tuple(mm[4:5])) in seen_pairs:
                 mm[1] += 7
-            seen_pairs.add((mm[0], mm[1]))
+            seen_pairs.add((mm[0], mm[1], tuple(mm[4:5])))
         order = []
         for s, mm in enumerate(msgs):
             for f in range(mm[2]):
@@ -177,7 +193,7 @@ class Sink:
             if f is None:
                 break
             out.append((f.header.from_node, f.header.frame_id, f.header.message_type,
-                        bytes(f.message)))
+                        bytes(f.message), f.header.to_node))
         return out
 
     def close(self):
@@ -187,7 +203,7 @@ class Sink:
 
 def run_case(ctx, case):
     m = repo()
-    msgs = [mk_message(s, fid, nf, typ, 3 + i) for i, (s, fid, nf, typ) in enumerate(case["msgs"])]
+    msgs = [mk_message(mm[0], mm[1], mm[2], mm[3], 3 + i, *mm[4:5]) for i, mm in enumerate(case["msgs"])]
     sink = Sink(m, case["path"])
     try:
         delivered = []
@@ -203,7 +219,7 @@ def run_case(ctx, case):
     ctx.clause("histories")
     sent = {}
     for mm in msgs:
-        sent[(mm["from"], mm["id"], mm["type"], mm["msg"])] = mm
+        sent[(mm["from"], mm["id"], mm["type"], mm["msg"], mm["to"])] = mm
     shape = (tuple((mm[2], mm[0] == case["msgs"][0][0], mm[1] == case["msgs"][0][1]) for mm in case["msgs"]),
              tuple(tuple(x) for x in case["order"]), tuple(case["deq"]), case["path"])
     seen = {}
@@ -211,7 +227,7 @@ def run_case(ctx, case):
         ctx.clause("dequeued_is_sent_message")
         if d not in sent:
             # classify the mechanism
-            frm, fid, typ, body = d
+            frm, fid, typ, body, _to = d
             cand = [mm for mm in msgs if mm["from"] == frm or mm["id"] == fid]
             key = "spliced-or-truncated"
             for mm in msgs:
